@@ -261,7 +261,7 @@ Print Assumptions done_has_announced_soa.
 Theorem ixfr_sections_applied : forall fin secs z0 z' ser ws,
   secs <> [] -> XfrSections.skel_ok ser fin secs -> XfrSections.end_serial ser secs = v_serial fin ->
   ttl_ok (v_ttl fin) -> v_serial fin <> ser -> serial_lt (v_serial fin) ser = false ->
-  XfrSections.apply_secs z0 secs = Some z' ->
+  XfrZone.quiet z0 -> XfrSections.apply_secs z0 secs = Some z' ->
   chunking tIXFR (soa_rr fin :: XfrSections.secs_stream secs ++ [soa_rr fin]) ws ->
   exists n, inbound_xfr z0 tIXFR (Some ser) false ws = (Done (zput soakey (v_ttl fin, [v_soa fin]) z'), n).
 Proof. exact XfrSections.ixfr_sections_applied. Qed.
@@ -271,7 +271,7 @@ Print Assumptions ixfr_sections_applied.
 Theorem ixfr_sections_rejected : forall fin secs tail z0 ser ws,
   XfrSections.skel_ok ser fin secs ->
   v_serial fin <> ser -> serial_lt (v_serial fin) ser = false ->
-  XfrSections.apply_secs z0 secs = None ->
+  XfrZone.quiet z0 -> XfrSections.apply_secs z0 secs = None ->
   chunking tIXFR (soa_rr fin :: XfrSections.secs_stream secs ++ tail) ws ->
   exists n, inbound_xfr z0 tIXFR (Some ser) false ws = (Error eDeleteNotExact z0, n).
 Proof. exact XfrSections.ixfr_sections_rejected. Qed.
@@ -283,7 +283,7 @@ Theorem ixfr_altered_addition : forall fin pre c A1 a a' A2 z0 z1 z2 ser ws1 ws2
   XfrSections.c_adds c = A1 ++ a :: A2 -> XfrZone.plain a -> XfrZone.plain a' ->
   XfrSections.skel_ok ser fin (pre ++ [c]) -> XfrSections.end_serial ser (pre ++ [c]) = v_serial fin ->
   ttl_ok (v_ttl fin) -> v_serial fin <> ser -> serial_lt (v_serial fin) ser = false ->
-  XfrSections.apply_secs z0 (pre ++ [c]) = Some z1 ->
+  XfrZone.quiet z0 -> XfrSections.apply_secs z0 (pre ++ [c]) = Some z1 ->
   XfrSections.apply_secs z0 (pre ++ [XfrSections.set_adds c (A1 ++ a' :: A2)]) = Some z2 ->
   chunking tIXFR (soa_rr fin :: XfrSections.secs_stream (pre ++ [c]) ++ [soa_rr fin]) ws1 ->
   chunking tIXFR (soa_rr fin :: XfrSections.secs_stream (pre ++ [XfrSections.set_adds c (A1 ++ a' :: A2)]) ++ [soa_rr fin]) ws2 ->
@@ -331,7 +331,7 @@ Theorem ixfr_soa_out_of_place : forall fin pre P b rest z0 z1 ser ws,
   XfrSections.skel_ok ser fin pre -> XfrSections.apply_secs z0 pre = Some z1 ->
   Forall XfrGlue.okrec P -> (pre <> [] \/ P = []) ->
   v_serial b <> XfrSections.end_serial ser pre ->
-  v_serial fin <> ser -> serial_lt (v_serial fin) ser = false ->
+  v_serial fin <> ser -> serial_lt (v_serial fin) ser = false -> (pre = [] /\ P = [] \/ XfrZone.quiet z0) ->
   chunking tIXFR (soa_rr fin :: XfrSections.secs_stream pre ++ P ++ soa_rr b :: rest) ws ->
   exists n, inbound_xfr z0 tIXFR (Some ser) false ws =
             (Error (XfrSoaFaults.mis_code fin b (match pre with [] => true | _ => false end)) z0, n).
